@@ -16,4 +16,13 @@ def View.sub (v : View) (a b : Nat) : Except Panic View :=
 def View.splitAt (v : View) (k : Nat) : Except Panic (View × View) :=
   if k ≤ v.len then .ok (⟨v.off, k⟩, ⟨v.off + k, v.len - k⟩) else .error .oob
 
+/-- `slice_take(&mut v, ..n)` of `iter.rs`: `None`, and `v` untouched, when `n > v.len()`; otherwise
+the first `n` elements are returned and `v` keeps the rest.  (second component = `v` afterwards) -/
+def View.takeTo (v : View) (n : Nat) : Option View × View :=
+  if n > v.len then (none, v) else (some ⟨v.off, n⟩, ⟨v.off + n, v.len - n⟩)
+
+/-- `slice_take(&mut v, n..)`: the elements from `n` on are returned and `v` keeps the first `n` -/
+def View.takeFrom (v : View) (n : Nat) : Option View × View :=
+  if n > v.len then (none, v) else (some ⟨v.off + n, v.len - n⟩, ⟨v.off, n⟩)
+
 end CircBuf
